@@ -79,6 +79,10 @@ pub fn run(a: &Args, r: &mut Report) {
     let mut g = G::seed_from_u64(crate::subseed(a, 9));
     let wrong_owners = [solana_sdk::system_program::ID, SPL_TOKEN, Pubkey::new_from_array([7u8; 32]), solana_sdk::pubkey!("FsJ3A3u2vn5cTVofAjvy6y5kwABJAqYWpe4975bi2epH")];
     while t0.elapsed() < a.budget {
+        if g.gen_range(0..5) == 0 {
+            venue_case(r, &mut g);
+            continue;
+        }
         let kind = g.gen_range(0..4); // 0 pyth 1 swb 2 fixed 3 staked
         let mut bank = Bank::zeroed();
         bank.mint_decimals = 6;
@@ -317,4 +321,131 @@ fn bincode_like(st: &solana_sdk::stake::state::StakeStateV2) -> Vec<u8> {
         v.push(0);
     }
     v
+}
+
+const DRIFT: Pubkey = solana_sdk::pubkey!("dRiftyHA39MWEi3m9aunc5MzRF1JYuBsbn6VPcn33UH");
+const SOLEND: Pubkey = solana_sdk::pubkey!("So1endDq2YkqhipRh3WViPa8hdiSpxWy6z3Z6tMCpAo");
+
+/// Exchange-rate-adjusted variants (Kamino / Drift / Solend with a Pyth feed): the adapter's
+/// adjusted price must not exceed price x exact exchange rate, a venue account that was not
+/// refreshed in the current slot / second must be refused, and so must a wrong venue account.
+fn venue_case(r: &mut Report, g: &mut G) {
+    use num_bigint::BigInt;
+    let venue = g.gen_range(0..3); // 0 kamino 1 drift 2 solend
+    let vname = ["kamino", "drift", "solend"][venue];
+    let mut bank = Bank::zeroed();
+    let okey = Pubkey::new_from_array(g.gen::<[u8; 32]>());
+    let vkey = Pubkey::new_from_array(g.gen::<[u8; 32]>());
+    bank.config.oracle_keys[0] = okey;
+    bank.config.oracle_keys[1] = vkey;
+    bank.config.oracle_max_age = 60;
+    bank.config.oracle_max_confidence = u32::MAX;
+    bank.config.oracle_setup = [OracleSetup::KaminoPythPush, OracleSetup::DriftPythPull, OracleSetup::SolendPythPull][venue];
+    bank.config.asset_tag = [3u8, 4, 5][venue];
+    let now: i64 = 1_700_000_000 + g.gen_range(0..1_000_000);
+    let slot: u64 = 1_000_000 + g.gen_range(0..1_000_000u64);
+    let price: i64 = g.gen_range(1..50_000_000_000i64);
+    let expo = [-8i32, -6, -5][g.gen_range(0..3)];
+    let conf: u64 = (price as u64) / [0u64, 1000, 100, 30][g.gen_range(0..4)].max(1) * (g.gen_range(0..2) as u64);
+    let fault = g.gen_range(0..8); // 0 stale venue 1 wrong venue key 2 wrong venue owner 3 bad discriminator else none
+    let dec: u32 = [6u32, 9, 6, 8][g.gen_range(0..4)];
+    // venue state and exact exchange rate
+    let (vdata, vowner, rate, stale): (Vec<u8>, Pubkey, Option<Rat>, bool) = match venue {
+        0 => {
+            let mut res = kamino_mocks::state::MinimalReserve::zeroed();
+            res.available_amount = g.gen_range(0..(1u64 << 50));
+            let borrowed: u128 = (g.gen_range(0..(1u64 << 50)) as u128) << 60;
+            res.borrowed_amount_sf = borrowed.to_le_bytes();
+            res.mint_total_supply = if g.gen_range(0..10) == 0 { 0 } else { g.gen_range(1..(1u64 << 50)) };
+            res.mint_decimals = dec as u64;
+            res.slot = if fault == 0 { slot - g.gen_range(1..3) } else { slot + g.gen_range(0..2) };
+            let liq = ru(res.available_amount as u128) + Rat::new(BigInt::from(borrowed), BigInt::from(1u128 << 60));
+            let rate = if res.mint_total_supply == 0 { None } else { Some(liq / ru(res.mint_total_supply as u128)) };
+            let mut d = kamino_mocks::state::RESERVE_DISCRIMINATOR.to_vec();
+            d.extend_from_slice(bytemuck::bytes_of(&res));
+            (d, KAMINO, rate, fault == 0)
+        }
+        1 => {
+            let mut m = drift_mocks::state::MinimalSpotMarket::zeroed();
+            let cum: u128 = 10_000_000_000u128 + g.gen_range(0..20_000_000_000u128);
+            m.cumulative_deposit_interest = cum.to_le_bytes();
+            m.decimals = dec;
+            m.last_interest_ts = if fault == 0 { (now - g.gen_range(1..3)) as u64 } else { (now + g.gen_range(0..2)) as u64 };
+            let mut d = drift_mocks::state::SPOT_MARKET_DISCRIMINATOR.to_vec();
+            d.extend_from_slice(bytemuck::bytes_of(&m));
+            (d, DRIFT, Some(ru(cum) / ru(10_000_000_000)), fault == 0)
+        }
+        _ => {
+            let mut res = solend_mocks::state::SolendMinimalReserve::zeroed();
+            res.liquidity_available_amount = g.gen_range(0..(1u64 << 50));
+            let wad: u128 = 1_000_000_000_000_000_000;
+            let borrowed: u128 = (g.gen_range(0..(1u64 << 40)) as u128) * wad;
+            res.liquidity_borrowed_amount_wads = borrowed.to_le_bytes();
+            res.collateral_mint_total_supply = if g.gen_range(0..10) == 0 { 0 } else { g.gen_range(1..(1u64 << 50)) };
+            res.liquidity_mint_decimals = dec as u8;
+            res.last_update_slot = if fault == 0 { slot - g.gen_range(1..3) } else { slot + g.gen_range(0..2) };
+            let liq = ru(res.liquidity_available_amount as u128) + ru(borrowed / wad);
+            let sup = res.collateral_mint_total_supply;
+            let rate = if sup == 0 { None } else { Some(liq / ru(sup as u128)) };
+            let mut d = vec![1u8];
+            d.extend_from_slice(bytemuck::bytes_of(&res));
+            (d, SOLEND, rate, fault == 0)
+        }
+    };
+    crate::NOW_SLOT.store(slot, std::sync::atomic::Ordering::Relaxed);
+    crate::NOW_TS.store(now, std::sync::atomic::Ordering::Relaxed);
+    let mut vdata = vdata;
+    if fault == 3 {
+        vdata[0] ^= 0x5a;
+    }
+    let vowner = if fault == 2 { solana_sdk::system_program::ID } else { vowner };
+    let presented_vkey = if fault == 1 { Pubkey::new_from_array(g.gen::<[u8; 32]>()) } else { vkey };
+    let pdata = pyth_data(&okey, price, conf, price, conf, expo, now, 0, false);
+    let clock = Clock { unix_timestamp: now, slot, ..Default::default() };
+    let mut store: Vec<(Pubkey, Pubkey, u64, Vec<u8>)> = vec![(okey, refm::PYTH_OWNER, 1, pdata), (presented_vkey, vowner, 1, vdata)];
+    let outcome = catch_unwind(AssertUnwindSafe(|| {
+        let ais: Vec<AccountInfo> = store.iter_mut().map(|(k, o, l, d)| AccountInfo::new(k, false, false, l, &mut d[..], o, false, 0)).collect();
+        let ais: &[AccountInfo] = unsafe { std::mem::transmute::<&[AccountInfo], &[AccountInfo]>(&ais[..]) };
+        match OraclePriceFeedAdapter::try_from_bank(&bank, ais, &clock) {
+            Err(_) => None,
+            Ok(ad) => Some((ad.get_price_of_type(OraclePriceType::RealTime, None, u32::MAX).ok(), ad.get_price_of_type(OraclePriceType::RealTime, Some(PriceBias::Low), u32::MAX).ok(), ad.get_price_of_type(OraclePriceType::RealTime, Some(PriceBias::High), u32::MAX).ok())),
+        }
+    }))
+    .unwrap_or(None);
+    r.eval();
+    let must_reject = fault <= 3;
+    r.count(&format!("C09.venue/{}/{}", vname, if must_reject { "must_reject" } else { "usable" }));
+    r.distinct(&("venue", vname, fault.min(4), dec, expo));
+    match (&outcome, must_reject) {
+        (Some((u, _, _)), true) if u.is_some() => {
+            let what = ["venue-state-not-refreshed-this-slot-or-second", "wrong-venue-account-key", "wrong-venue-account-owner", "bad-venue-discriminator"][fault as usize];
+            let _ = stale;
+            r.violate("C09", &format!("C09/adapter/{}/price-despite-{}", vname, what), format!("price {} expo {}", price, expo));
+        }
+        (Some((Some(u), low, high)), false) => {
+            let sc = one() / pow10(expo.unsigned_abs());
+            let reported = ri(price as i128) * &sc;
+            let exact = match &rate {
+                Some(rt) => &reported * rt,
+                None => reported.clone(),
+            };
+            let got = bits_to_rat(u.to_bits());
+            // truncation: integer price floor (one price unit), scaled supplies (ulp / scaled value), fixed-point ops
+            let slack = &exact * rq(1, 1 << 30) + &sc * ri(2) + ulp() * ri(64);
+            r.max(&format!("C09.venue_{}_max_rate", vname), rate.as_ref().map(to_f64).unwrap_or(1.0));
+            if got > &exact + &slack {
+                r.violate("C09", &format!("C09/adapter/{}/adjusted-price-exceeds-price-times-exact-rate", vname), format!("adapter {} exact {} (price {} rate {})", u, show(&exact), show(&reported), rate.as_ref().map(show).unwrap_or_default()));
+            }
+            if got < &exact - &slack - &exact * rq(1, 1_000_000) {
+                r.violate("C09", &format!("C09/adapter/{}/adjusted-price-far-below-price-times-exact-rate", vname), format!("adapter {} exact {}", u, show(&exact)));
+            }
+            if let (Some(l), Some(h)) = (low, high) {
+                if l > u || h < u {
+                    r.violate("C09", &format!("C09/adapter/{}/bias-on-the-wrong-side", vname), format!("low {} unbiased {} high {}", l, u, h));
+                }
+            }
+            r.count("C09.venue_prices_compared");
+        }
+        _ => {}
+    }
 }
